@@ -10,9 +10,9 @@ The model mirrors the code as it is:
   type of each failing test), on a small universe of Python values (`PyVal`: `bool` is not `int`);
 * `validateOrder`  = `Experiment._validate_schedule_order`;
 * `validateSchedules` = `Experiment._validate_schedules`: first failing schedule decides, item errors
-  before order errors, *including* the stale loop variable `j`: a non-iterable schedule raises
-  `TypeError` inside the `try`, the handler formats `j`, which is unbound (→ `UnboundLocalError`) unless an
-  earlier schedule left a value in it;
+  before order errors; `j, item = None, schedule` is set at the top of every outer iteration, so a non-iterable
+  schedule (`TypeError` from `enumerate` inside the `try`) is reported as the schedule-item error without an
+  item position (`j = None`);
 * `construct`, `setList`, `setSchedules` = constructor and setters (validate first, assign on success);
 * `calcProbDist` = `Experiment.calc_prob_dist` (index check, `None` placeholders, composition from the state
   outwards with the type dispatch of `operators._compose_qoperations`, final `.ps`);
@@ -152,26 +152,22 @@ def validateOrder (T : Tables) (names : List String) : Except OrderErr Unit :=
 /-! ## `_validate_schedules` -/
 
 inductive Err
-  | item (i j : Nat) (e : PyExc)      -- QuaraScheduleItemError
+  | item (i j : Nat) (e : PyExc)      -- QuaraScheduleItemError raised for item j of schedule i
+  | itemNoPos (i : Nat)               -- QuaraScheduleItemError for a schedule that cannot be iterated (`j` is `None`)
   | order (i : Nat) (r : OrderErr)    -- QuaraScheduleOrderError
-  | unbound                           -- UnboundLocalError (`j` in the handler, non-iterable schedule)
   | escaped (e : PyExc)               -- an exception that is not converted
 deriving Repr, DecidableEq
 
 def Err.toString : Err → String
   | .item i j e => s!"item {i} {j} {e.toString}"
   | .order i r => s!"order {i} {r.toString}"
-  | .unbound => "unbound"
+  | .itemNoPos i => s!"item {i} None TypeError"
   | .escaped e => s!"escaped {e.toString}"
 
-/-- `stale` = value left in the function-local `j` by earlier schedules -/
-def validateSchedulesAux (T : Tables) (L : Lists) : List Schedule → Nat → Option Nat → Except Err Unit
-  | [], _, _ => .ok ()
-  | .nonIterable :: _, i, stale =>
-    match stale with
-    | none => .error .unbound
-    | some j => .error (.item i j .typeError)
-  | .items its :: rest, i, stale =>
+def validateSchedulesAux (T : Tables) (L : Lists) : List Schedule → Nat → Except Err Unit
+  | [], _ => .ok ()
+  | .nonIterable :: _, i => .error (.itemNoPos i)
+  | .items its :: rest, i =>
     match validateItems T L its 0 with
     | .error (_, .keyError) => .error (.escaped .keyError)
     | .error (j, e) => .error (.item i j e)
@@ -179,11 +175,10 @@ def validateSchedulesAux (T : Tables) (L : Lists) : List Schedule → Nat → Op
       match validateOrder T names with
       | .error .pyIndex => .error (.escaped .indexError)
       | .error r => .error (.order i r)
-      | .ok () =>
-        validateSchedulesAux T L rest (i + 1) (if its.isEmpty then stale else some (its.length - 1))
+      | .ok () => validateSchedulesAux T L rest (i + 1)
 
 def validateSchedules (T : Tables) (L : Lists) (ss : List Schedule) : Except Err Unit :=
-  validateSchedulesAux T L ss 0 none
+  validateSchedulesAux T L ss 0
 
 /-! ## constructor and setters -/
 
@@ -335,12 +330,13 @@ structure TomoSpec where
   pos : List (Nat × String)     -- `schedule[p][0] != k or …` (left to right, short-circuit)
   zero : Nat                    -- `schedule[zero][1] != 0`
   lists : List Nat              -- states, povms, gates, mprocesses: 0 = [], 1 = [None], 2 = parameter
+  len : Option Nat              -- leading test `len(schedule) != n or …` (none: the class has no length test)
 deriving Repr, DecidableEq
 
-def qstSpec : TomoSpec := ⟨QGen.C20.qstPos, QGen.C20.qstZero, QGen.C20.qstLists⟩
-def povmtSpec : TomoSpec := ⟨QGen.C20.povmtPos, QGen.C20.povmtZero, QGen.C20.povmtLists⟩
-def qptSpec : TomoSpec := ⟨QGen.C20.qptPos, QGen.C20.qptZero, QGen.C20.qptLists⟩
-def qmptSpec : TomoSpec := ⟨QGen.C20.qmptPos, QGen.C20.qmptZero, QGen.C20.qmptLists⟩
+def qstSpec : TomoSpec := ⟨QGen.C20.qstPos, QGen.C20.qstZero, QGen.C20.qstLists, QGen.C20.qstLen⟩
+def povmtSpec : TomoSpec := ⟨QGen.C20.povmtPos, QGen.C20.povmtZero, QGen.C20.povmtLists, QGen.C20.povmtLen⟩
+def qptSpec : TomoSpec := ⟨QGen.C20.qptPos, QGen.C20.qptZero, QGen.C20.qptLists, QGen.C20.qptLen⟩
+def qmptSpec : TomoSpec := ⟨QGen.C20.qmptPos, QGen.C20.qmptZero, QGen.C20.qmptLists, QGen.C20.qmptLen⟩
 
 inductive Cls | qst | povmt | qpt | qmpt
 deriving Repr, DecidableEq
@@ -368,8 +364,14 @@ def posTests (s : List (String × Int)) : List (Nat × String) → Option Bool
     | none => none
     | some (n, _) => if n ≠ k then some true else posTests s rest
 
+/-- the first `if`: optional length test, then the positional kind tests (one short-circuit `or` chain) -/
+def firstTest (sp : TomoSpec) (s : List (String × Int)) : Option Bool :=
+  match sp.len with
+  | some n => if s.length ≠ n then some true else posTests s sp.pos
+  | none => posTests s sp.pos
+
 def tomoValidateOne (sp : TomoSpec) (i : Nat) (s : List (String × Int)) : Except TomoErr Unit :=
-  match posTests s sp.pos with
+  match firstTest sp s with
   | none => .error .index
   | some true => .error (.value i)
   | some false =>
